@@ -834,7 +834,18 @@ STATE_MODELS = ["logistic_diag_noise", "logistic_scalar_noise", "logistic_binary
                 "shared_speed_logistic_binary", "joint_diagonal", "joint_scalar", "univariate_joint"]
 
 
-def load_model(name):
+def punch(df, cols, seed):
+    """some outcomes of existing visits go missing (never a whole visit)"""
+    import random
+    r = random.Random(seed)
+    df = df.copy()
+    for i in df.index:
+        if len(cols) >= 2 and r.random() < 0.3:
+            df.loc[i, r.choice(cols)] = float("nan")
+    return df
+
+
+def load_model(name, holes_seed=None):
     import pandas as pd
     from leaspy.io.data import Data, Dataset
     from leaspy.models import BaseModel
@@ -846,9 +857,15 @@ def load_model(name):
             df = df.iloc[:, :5]
         data = Data.from_dataframe(df, data_type="joint")
     elif "binary" in name:
-        data = Data.from_dataframe(pd.read_csv(R / "data_mock/binary_data.csv", dtype={"ID": str}))
+        df = pd.read_csv(R / "data_mock/binary_data.csv", dtype={"ID": str})
+        if holes_seed is not None:
+            df = punch(df, [c for c in df.columns if c not in ("ID", "TIME")], holes_seed)
+        data = Data.from_dataframe(df)
     else:
-        data = Data.from_dataframe(pd.read_csv(R / "data_mock/data_tiny.csv", dtype={"ID": str}))
+        df = pd.read_csv(R / "data_mock/data_tiny.csv", dtype={"ID": str})
+        if holes_seed is not None:
+            df = punch(df, [c for c in df.columns if c not in ("ID", "TIME")], holes_seed)
+        data = Data.from_dataframe(df)
     return m, Dataset(data)
 
 
@@ -864,7 +881,7 @@ def state_case(chk, name, seed, tau_mode):
         return
     try:
         with core.quiet():
-            m, ds = load_model(name)
+            m, ds = load_model(name, holes_seed=(seed if seed % 2 == 0 else None))
             st = m.state
             m.put_data_variables(st, ds)
             torch.manual_seed(seed)
@@ -888,6 +905,16 @@ def state_case(chk, name, seed, tau_mode):
                     st["xi"] = xi
                     st["tau"] = tau
             terms = []
+            if "y" in st.dag:
+                # the observations enter the likelihood with the dataset's own mask: a missing outcome contributes nothing
+                yv = st["y"]
+                if not (isinstance(yv, WT) and yv.weight is not None and torch.equal(yv.weight != 0, ds.mask != 0)):
+                    nmiss = int((ds.mask == 0).sum())
+                    chk.impl_failure(case, f"state['y'] does not carry the dataset's mask ({nmiss} missing or padded entries): "
+                                           "missing outcomes are evaluated as observed values")
+                elif not torch.equal(torch.where(ds.mask != 0, yv.value.double(), torch.zeros_like(yv.value.double())),
+                                     torch.where(ds.mask != 0, ds.values.double(), torch.zeros_like(ds.values.double()))):
+                    chk.impl_failure(case, "state['y'] does not hold the dataset's observed values")
             if "event" in st.dag:
                 evv = st["event"]
                 if not (torch.equal(evv.value, ds.event_time) and evv.weight is not None
